@@ -414,6 +414,55 @@ def c06(ctx):
     probe_known_df_huge(ctx)
 
 
+def heap_attach_correspondence(ctx, d):
+    """`parent.set_left(new)` / `set_right(new)` on real BinaryTreeNode objects against the heap
+    model's `setSide` (the operation `ExpressionChangeRule.done` splices results in with): every
+    cell (left, right, parent) of both trees afterwards; every node of every shape up to 4 (quick) /
+    5 (thorough) nodes as the parent, both sides, new sub-trees of up to 3 nodes and `None`"""
+    from .props_tree import all_shapes, build, shape_wire, ids_of
+    quick = ctx.tier == "quick"
+    d["heap_attach"] = []
+    ts = all_shapes(4 if quick else 5)
+    ss = [None] + all_shapes(2 if quick else 3)
+    lines, meta = [], []
+    for t in ts:
+        for s in ss:
+            off = max(ids_of(t)) + 1
+
+            def shift(x):
+                return None if x is None else (x[0] + off, shift(x[1]), shift(x[2]))
+            s2 = shift(s)
+            for q in ids_of(t):
+                for side in "LR":
+                    nodes = {}
+                    root = build(t, nodes)
+                    sroot = build(s2, nodes) if s2 is not None else None
+                    try:
+                        (nodes[q].set_left if side == "L" else nodes[q].set_right)(sroot)
+                    except Exception as e:  # noqa
+                        d["heap_attach"].append({"tree": shape_wire(t), "new": shape_wire(s2), "what": f"set_side raised {type(e).__name__}"})
+                        continue
+                    rev = {id(o): k for k, o in nodes.items()}
+                    cells = {k: tuple(rev.get(id(x)) if x is not None else None for x in (o.left, o.right, o.parent))
+                             for k, o in nodes.items()}
+                    lines.append(f"attach {q} {side} {shape_wire(t)} | {shape_wire(s2)}")
+                    meta.append((t, s2, q, side, cells))
+    drv = core.Driver()
+    for (t, s2, q, side, cells), a in zip(meta, drv.ask(lines)):
+        toks = a.split()
+        mcells = {}
+        ok = bool(toks) and toks[0] == "cells"
+        if ok:
+            for c in toks[1:]:
+                k, l_, r_, p_ = c.split(":")
+                mcells[int(k)] = tuple(None if x == "-" else int(x) for x in (l_, r_, p_))
+        if not ok or mcells != cells:
+            d["heap_attach"].append({"tree": shape_wire(t), "new": shape_wire(s2) if s2 else None, "parent": q, "side": side,
+                                     "impl_cells": str(cells), "model": a[:300]})
+    ctx.notes["heap_attach_compared"] = len(lines)
+    ctx.coverage["traces_validated_against_impl"] += len(lines)
+
+
 def c07(ctx):
     ctx.coverage["rule"] = (
         "same inputs as C01+C02; every rewrite is applied to clone_from_root of the node; the real result is audited "
@@ -423,7 +472,8 @@ def c07(ctx):
     recs, d = family_run(ctx, want_equations=None)
     # C07 consumes identities, links, context and variables of the results; whether the result has
     # the SHAPE the model predicts is C01/C02/C08's business (a value-changing rewrite is theirs)
-    report(ctx, d, ["audit", "vars", "orig"], ["ident"], "structural soundness and untouched context")
+    heap_attach_correspondence(ctx, d)
+    report(ctx, d, ["audit", "vars", "orig"], ["ident", "heap_attach"], "structural soundness and untouched context")
     report_inplace(ctx, "C07", "structural soundness after in-place rewrite sequences")
 
 
